@@ -227,7 +227,7 @@ def main(prop: str, tier: str = "quick") -> int:
         with cf.ProcessPoolExecutor(max_workers=workers, mp_context=ctx) as ex:
             results = list(ex.map(_run_one, jobs))
 
-    findings = [f for f in load_known_findings() if f["property"] == prop]
+    findings = load_known_findings()  # obligation ids are global: a shared contract carries its findings into every property that uses it
     by_oid: Dict[str, List[dict]] = defaultdict(list)
     checker_errors, unsupported, bounded_results = [], [], []
     funcs = []
